@@ -338,96 +338,97 @@ pub fn h_first(base: &Run, run: &Run, out: &mut Vec<Violation>) {
     }
 }
 
-/// Every event resolved against the document the source holds (no duplicate keys).
+/// Every event resolved against the document the source holds. With duplicate keys a path may
+/// denote several values: a claim must be true of at least one of them.
 pub fn h_loc(run: &Run, doc: &Doc, out: &mut Vec<Violation>) {
     let mut rid_loc: HashMap<u32, Path> = HashMap::new();
     for e in &run.events {
         match e {
-            Event::Visit { path, digest, .. } => match doc.resolve(path) {
-                None => {
+            Event::Visit { path, digest, .. } => {
+                let here = doc.resolve_all(path);
+                if here.is_empty() {
                     out.push(v("H-loc", format!("a leaf was handed location {} which does not exist in the payload", path_str(path))));
                     return;
                 }
-                Some(d) => {
-                    if d.digest() != *digest {
-                        out.push(v(
-                            "H-loc",
-                            format!(
-                                "a leaf was handed location {} but the value it was given is not the value at that position ({})",
-                                path_str(path),
-                                d.render()
-                            ),
-                        ));
-                        return;
-                    }
+                if !here.iter().any(|d| d.digest() == *digest) {
+                    out.push(v(
+                        "H-loc",
+                        format!(
+                            "a leaf was handed location {} but the value it was given is not the value at that position ({})",
+                            path_str(path),
+                            here[0].render()
+                        ),
+                    ));
+                    return;
                 }
-            },
+            }
             Event::Report { rid, kind, loc, .. } => {
                 rid_loc.insert(*rid, loc.clone());
-                let here = match doc.resolve(loc) {
-                    None => {
-                        out.push(v("H-loc", format!("report `{}` is located at a position that does not exist in the payload", e.render())));
-                        return;
-                    }
-                    Some(d) => d,
-                };
-                let bad = match kind {
-                    KindSnap::IncorrectValueKind { actual, .. } => {
-                        if !actual.same_unordered(here) {
-                            Some(format!("its `actual` is not the value at that position ({})", here.render()))
-                        } else {
-                            None
-                        }
-                    }
-                    KindSnap::BadSequenceLen { actual, .. } => {
-                        if !Doc::Seq(actual.clone()).same_unordered(here) {
-                            Some(format!("its `actual` is not the sequence at that position ({})", here.render()))
-                        } else {
-                            None
-                        }
-                    }
-                    KindSnap::MissingField { field } => match here {
-                        Doc::Map(m) if m.iter().all(|(k, _)| k != field) => None,
-                        Doc::Map(_) => Some(format!("the object there does have a member `{field}`")),
-                        _ => Some("the position does not hold an object".to_string()),
-                    },
-                    KindSnap::UnknownKey { key, accepted } => match here {
-                        Doc::Map(m) if m.iter().any(|(k, _)| k == key) => {
-                            if accepted.iter().any(|a| a == key) {
-                                Some(format!("the key `{key}` is among the accepted keys"))
+                let all = doc.resolve_all(loc);
+                if all.is_empty() {
+                    out.push(v("H-loc", format!("report `{}` is located at a position that does not exist in the payload", e.render())));
+                    return;
+                }
+                let judge = |here: &Doc| -> Option<String> {
+                    match kind {
+                        KindSnap::IncorrectValueKind { actual, .. } => {
+                            if !actual.same_unordered(here) {
+                                Some(format!("its `actual` is not the value at that position ({})", here.render()))
                             } else {
                                 None
                             }
                         }
-                        Doc::Map(_) => Some(format!("the object there has no member `{key}`")),
-                        _ => Some("the position does not hold an object".to_string()),
-                    },
-                    KindSnap::UnknownValue { value, accepted } => match here {
-                        Doc::Str(s) if s == value => {
-                            if accepted.iter().any(|a| a == value) {
-                                Some(format!("the value `{value}` is among the accepted values"))
+                        KindSnap::BadSequenceLen { actual, .. } => {
+                            if !Doc::Seq(actual.clone()).same_unordered(here) {
+                                Some(format!("its `actual` is not the sequence at that position ({})", here.render()))
                             } else {
                                 None
                             }
                         }
-                        _ => Some(format!("the value at that position is {}", here.render())),
-                    },
-                    KindSnap::Unexpected { .. } => None,
+                        KindSnap::MissingField { field } => match here {
+                            Doc::Map(m) if m.iter().all(|(k, _)| k != field) => None,
+                            Doc::Map(_) => Some(format!("the object there does have a member `{field}`")),
+                            _ => Some("the position does not hold an object".to_string()),
+                        },
+                        KindSnap::UnknownKey { key, accepted } => match here {
+                            Doc::Map(m) if m.iter().any(|(k, _)| k == key) => {
+                                if accepted.iter().any(|a| a == key) {
+                                    Some(format!("the key `{key}` is among the accepted keys"))
+                                } else {
+                                    None
+                                }
+                            }
+                            Doc::Map(_) => Some(format!("the object there has no member `{key}`")),
+                            _ => Some("the position does not hold an object".to_string()),
+                        },
+                        KindSnap::UnknownValue { value, accepted } => match here {
+                            Doc::Str(s) if s == value => {
+                                if accepted.iter().any(|a| a == value) {
+                                    Some(format!("the value `{value}` is among the accepted values"))
+                                } else {
+                                    None
+                                }
+                            }
+                            _ => Some(format!("the value at that position is {}", here.render())),
+                        },
+                        KindSnap::Unexpected { .. } => None,
+                    }
                 };
-                if let Some(b) = bad {
-                    out.push(v("H-loc", format!("report `{}`: {b}", e.render())));
+                let verdicts: Vec<Option<String>> = all.iter().map(|d| judge(d)).collect();
+                if verdicts.iter().all(|x| x.is_some()) {
+                    out.push(v("H-loc", format!("report `{}`: {}", e.render(), verdicts[0].clone().unwrap())));
                     return;
                 }
             }
             Event::Foreign { rid, loc, .. } => {
                 rid_loc.insert(*rid, loc.clone());
-                if doc.resolve(loc).is_none() {
+                if doc.resolve_all(loc).is_empty() {
                     out.push(v("H-loc", format!("`{}` is located at a position that does not exist in the payload", e.render())));
                     return;
                 }
             }
             Event::Merge { other_reports, loc, .. } => {
-                if doc.resolve(loc).is_none() {
+                if doc.resolve_all(loc).is_empty() {
                     out.push(v("H-loc", format!("hand-over `{}` is located at a position that does not exist in the payload", e.render())));
                     return;
                 }
